@@ -308,4 +308,12 @@ theorem cancelledWaiters_count {w : World} (hp : PInvB w) (q : Pid) :
     have := (key h hq).symm.trans (key h' hq')
     simpa using this
 
+/-- two waiters (priorities 1 and 2) on two user events, a third process cancels by pattern -/
+def patternWorld : World :=
+  pushEv (pushEv
+    { procs := #[{ prio := 1, status := .running, awaits := [.event 1], blocked := some (.waitEvent 1) },
+                 { prio := 2, status := .running, awaits := [.event 2], blocked := some (.waitEvent 2) },
+                 { prio := 0, status := .running }],
+      evWaiters := [(1, [0]), (2, [1])] } aUser 0 0 5 0) aUser 0 0 7 3
+
 end CimbaModel.Sim.S5
